@@ -1196,7 +1196,7 @@ result_t NumberDataType::parseInput(const string inputStr, unsigned int* parsedV
       char* strEnd = nullptr;
       errno = 0;
       double dvalue = strtod(str, &strEnd);
-      if (errno == ERANGE || strEnd == nullptr || strEnd == str || *strEnd != 0) {
+      if (errno == ERANGE || strEnd == nullptr || strEnd == str || *strEnd != 0 || !isfinite(dvalue)) {
         return RESULT_ERR_INVALID_NUM;  // invalid value
       }
       if (m_divisor < 0) {
@@ -1239,7 +1239,7 @@ result_t NumberDataType::parseInput(const string inputStr, unsigned int* parsedV
         }
       } else {
         double dvalue = strtod(str, &strEnd);
-        if (errno == ERANGE || strEnd == nullptr || strEnd == str || *strEnd != 0) {
+        if (errno == ERANGE || strEnd == nullptr || strEnd == str || *strEnd != 0 || !isfinite(dvalue)) {
           return RESULT_ERR_INVALID_NUM;  // invalid value
         }
         if (m_divisor < 0) {
